@@ -322,19 +322,31 @@ pub fn module_of(k: Kind) -> &'static str {
     }
 }
 
+/// Payload strings in unusual but valid spellings: as given, without its first character (a type URL without the
+/// leading slash), empty, padded with blanks, upper case — a module is handed what was sent, whatever it looks like.
+fn odd(n: u64, base: String) -> String {
+    match n % 7 {
+        1 => base.chars().skip(1).collect(),
+        2 => String::new(),
+        3 => format!(" {} ", base),
+        4 => base.to_uppercase(),
+        _ => base,
+    }
+}
+
 pub fn make_msg(k: Kind, n: u64, to: &str) -> CosmosMsg<PMsg> {
     match k {
         Kind::Wasm => to_cosmos::<PMsg>(&Msg::Exec { addr: to.to_string(), script: Box::new(Script { tag: 900_000 + n as u32, ..Default::default() }), funds: vec![] }),
         Kind::Bank => CosmosMsg::Bank(BankMsg::Send { to_address: to.to_string(), amount: vec![coin(1 + n as u128 % 3, "ua")] }),
         Kind::BankEmpty => CosmosMsg::Bank(BankMsg::Send { to_address: format!("{}-{}", to, n), amount: vec![] }),
-        Kind::Staking => CosmosMsg::Staking(StakingMsg::Delegate { validator: format!("val{}", n), amount: coin(n as u128 + 1, "ua") }),
-        Kind::Distribution => CosmosMsg::Distribution(DistributionMsg::SetWithdrawAddress { address: format!("addr{}", n) }),
+        Kind::Staking => CosmosMsg::Staking(StakingMsg::Delegate { validator: odd(n, format!("val{}", n)), amount: coin(n as u128 + 1, "ua") }),
+        Kind::Distribution => CosmosMsg::Distribution(DistributionMsg::SetWithdrawAddress { address: odd(n / 7, format!("addr{}", n)) }),
         Kind::Custom => CosmosMsg::Custom(PMsg { tag: n as u32, fail: false }),
-        Kind::Ibc => CosmosMsg::Ibc(IbcMsg::CloseChannel { channel_id: format!("channel-{}", n) }),
+        Kind::Ibc => CosmosMsg::Ibc(IbcMsg::CloseChannel { channel_id: odd(n, format!("channel-{}", n)) }),
         Kind::Gov => CosmosMsg::Gov(GovMsg::Vote { proposal_id: n, option: if n % 2 == 0 { VoteOption::Yes } else { VoteOption::NoWithVeto } }),
         #[allow(deprecated)]
-        Kind::Stargate => CosmosMsg::Stargate { type_url: format!("/test.Msg{}", n), value: Binary::from(vec![n as u8, 1, 2]) },
-        Kind::Any => CosmosMsg::Any(AnyMsg { type_url: format!("/test.Any{}", n), value: Binary::from(vec![n as u8, 3]) }),
+        Kind::Stargate => CosmosMsg::Stargate { type_url: odd(n, format!("/test.Msg{}", n)), value: Binary::from(if n % 5 == 0 { vec![] } else { vec![n as u8, 1, 2] }) },
+        Kind::Any => CosmosMsg::Any(AnyMsg { type_url: odd(n, format!("/test.Any{}", n)), value: Binary::from(if n % 5 == 0 { vec![] } else { vec![n as u8, 3] }) }),
     }
 }
 
@@ -624,7 +636,7 @@ fn make_query(k: QKind, n: u64, addr: &str) -> (QueryRequest<PQuery>, &'static s
             (QueryRequest::Wasm(q.clone()), "wasm", format!("{:?}", q))
         }
         QKind::Staking => {
-            let q = StakingQuery::Validator { address: format!("val{}", n) };
+            let q = StakingQuery::Validator { address: odd(n, format!("val{}", n)) };
             (QueryRequest::Staking(q.clone()), "staking", format!("{:?}", q))
         }
         QKind::Custom => {
@@ -632,12 +644,18 @@ fn make_query(k: QKind, n: u64, addr: &str) -> (QueryRequest<PQuery>, &'static s
             (QueryRequest::Custom(q.clone()), "custom", format!("{:?}", q))
         }
         QKind::Ibc => {
-            let q = IbcQuery::Channel { channel_id: format!("channel-{}", n), port_id: None };
+            let q = IbcQuery::Channel { channel_id: odd(n, format!("channel-{}", n)), port_id: None };
             (QueryRequest::Ibc(q.clone()), "ibc", format!("{:?}", q))
         }
         #[allow(deprecated)]
-        QKind::Stargate => (QueryRequest::Stargate { path: format!("/q{}", n), data: Binary::from(vec![n as u8]) }, "stargate", format!("stargate /q{} {}", n, hex(&[n as u8]))),
-        QKind::Grpc => (QueryRequest::Grpc(GrpcQuery { path: format!("/g{}", n), data: Binary::from(vec![n as u8, 9]) }), "stargate", format!("grpc /g{} {}", n, hex(&[n as u8, 9]))),
+        QKind::Stargate => {
+            let path = odd(n, format!("/q{}", n));
+            (QueryRequest::Stargate { path: path.clone(), data: Binary::from(vec![n as u8]) }, "stargate", format!("stargate {} {}", path, hex(&[n as u8])))
+        }
+        QKind::Grpc => {
+            let path = odd(n, format!("/g{}", n));
+            (QueryRequest::Grpc(GrpcQuery { path: path.clone(), data: Binary::from(vec![n as u8, 9]) }), "stargate", format!("grpc {} {}", path, hex(&[n as u8, 9])))
+        }
     }
 }
 
